@@ -146,6 +146,25 @@ func run(c vrt.Case) vrt.Obs {
 		}
 		return o
 	}
+	if p.Count > 0 && (p.Index/p.Count)%5 == 4 {
+		// every fifth batch: three pairs of stations exchange at the same time in one process (a gateway that
+		// serves several links): each exchange must be as correct as if it were alone (gzip off: the
+		// experiment switch is a process-wide environment variable)
+		vrt.Parallel(&o, 3, func(g int, po *vrt.Obs) {
+			for i := p.Index + g; i < p.Index+p.Count; i += 3 {
+				r := vrt.Rand(p.Seed, "c01", i)
+				sc, err := b2fx.GenScenario(r, 13)
+				if err != nil {
+					po.Inconclusive = append(po.Inconclusive, fmt.Sprintf("scenario %d: generator: %v", i, err))
+					continue
+				}
+				sc.Gzip = false
+				runScenario(po, sc, fmt.Sprintf("s%d", i))
+				po.Count("sessions_run_while_other_sessions_were_active", 1)
+			}
+		})
+		return o
+	}
 	for i := p.Index; i < p.Index+p.Count; i++ {
 		r := vrt.Rand(p.Seed, "c01", i)
 		sc, err := b2fx.GenScenario(r, 13)
